@@ -152,6 +152,9 @@ def make_jobs(ctx):
                      flags=["--unwind", "40", "--unwinding-assertions"], native_src=["stringbuilder.c", "array.c", "opcode.c", "instruction.c", "valuetype.c", "sha1.c", "export.c", "debug.c", "section.c"],
                      bounded="one function, debug name of 1..3 bytes, every byte value (the writer treats the name byte by byte)",
                      info=dict(layer="E", note="stdio recorder with a state machine for the __asm__ label")))
+    # -m (several modules in one program): the call probes of C04 - imports called directly, through the table, re-exported - verified from the -m output
+    from . import c04
+    jobs += [j for j in c04.make_jobs(ctx) if j.name.startswith("G.imp-m.")]
     j = Job("B.files_and_threads", src=None, solver="static", funcs=["w2c2 binary: -f / -t"], bounded="one module of 28 functions, -f in {1,2,3,n+1} x -t in {1,2,4,8} x 2 runs (quick: subset)",
             info=dict(layer="bounded corroboration on the real binary"))
     j.static_fn = files_fact
